@@ -178,6 +178,39 @@ def work(job):
     return out
 
 
+def native_corpus():
+    """Every directed mixed graph on 3 nodes (cycles included), every pair and conditioning set: the real function
+    natively against the concrete reference (agreement on acyclic graphs, symmetry and adjacency on all)."""
+    U = universe(3)
+    dpairs = [(u, v) for u in U for v in U if u != v]
+    bpairs = list(itt.combinations(U, 2))
+    bad, cnt = [], 0
+    for dm in range(1 << len(dpairs)):
+        di = [p for i, p in enumerate(dpairs) if dm >> i & 1]
+        acyclic = _acyclic3(U, di)
+        for bm in range(1 << len(bpairs)):
+            bi = [p for i, p in enumerate(bpairs) if bm >> i & 1]
+            for a, b in itt.combinations(U, 2):
+                rest = [w for w in U if w not in (a, b)]
+                for k in range(len(rest) + 1):
+                    for C in itt.combinations(rest, k):
+                        cnt += 1
+                        r = native_case(U, di, bi, a, b, list(C), acyclic)
+                        if r["bad"] and not r["d11"] and len(bad) < 5:
+                            bad.append(r)
+    return cnt, bad
+
+
+def _acyclic3(nodes, di):
+    left = set(nodes)
+    while left:
+        free = [n for n in left if not any(v == n and u in left for u, v in di)]
+        if not free:
+            return False
+        left -= set(free)
+    return True
+
+
 def run() -> int:
     t = tier()
     timeout_ms = 120000 if t == "quick" else 600000
@@ -233,7 +266,11 @@ def run() -> int:
                 rep.harness_errors.append(f"{key}: solver counterexample did not reproduce natively: {cex}")
         if len(rep.samples) < 8:
             rep.add_sample({"query": key, "verdict": r["verdict"], "encode_s": round(r["encode_s"], 2), "solve_s": round(r["solve_s"], 2)})
-    rep.extra.update({"states": max(states, 1), "transitions": max(rep.obligations, 1), "traces_validated_against_impl": rep.refuted})
+    cnt, bad = native_corpus()
+    for b in bad:
+        what = f"are_sigma_separated({b['a']}, {b['b']} | {b['C']}) on nodes={b['nodes']} di={b['di']} bi={b['bi']}: {b['observed']} (native validation corpus)"
+        rep.add_violation(Violation(PROP, [f"native {b['a']} {b['b']} {b['C']}"], what, {"property": PROP, **b}))
+    rep.extra.update({"states": max(states, 1), "transitions": max(rep.obligations, 1), "traces_validated_against_impl": cnt})
     return rep.finish()
 
 
